@@ -344,3 +344,45 @@ def ood_episodes(seed, count):
                 ops.append({"op": r.choice(["get", "set", "index", "a_get", "a_set", "a_swap", "a_index"]), "i": i, "b": True})
         eps.append({"fam": "bitvec", "src": "ood", "ops": ops})
     return eps
+
+
+def bulk_episodes(seed, count):
+    """C10 (BitVec part): every bulk operation and its parallel / atomic variant, after shrinking and over dirty
+    storage, each followed by observers (the specification defines each as the per-element loop)"""
+    r = random.Random(seed ^ 0x10)
+    eps = []
+    plain = ["fill", "par_fill", "flip", "par_flip", "reset", "par_reset", "count_ones", "par_count_ones", "count_zeros"]
+    atom = ["a_fill", "a_par_fill", "a_flip", "a_par_flip", "a_reset", "a_par_reset", "a_count_ones", "a_par_count_ones",
+            "a_count_zeros"]
+    for k in range(count):
+        ops = [ctor(r)]
+        c = ops[0]
+        n = c.get("n", c.get("rlen", len(c.get("bits", []))))
+        if c["op"] in ("with_capacity", "macro_empty"):
+            n = 0
+        # grow, then shrink: stale ones beyond the length in the last word and in spare words
+        if r.random() < 0.7:
+            m = r.choice([65, 100, 128, 130, 200])
+            ops += [{"op": "resize", "n": m, "v": True}, {"op": "resize", "n": rlen(r, m), "v": False}]
+            if r.random() < 0.5:
+                ops += [{"op": "pop"}] * r.choice([1, 3, 30])
+        form = "vec"
+        for _ in range(r.randrange(3, 10)):
+            if form == "vec" and r.random() < 0.15:
+                ops.append({"op": "into", "to": "atomic"}); form = "atomic"
+            elif form == "atomic" and r.random() < 0.3:
+                ops.append({"op": "into", "to": "vec"}); form = "vec"
+            o = r.choice(plain if form == "vec" else atom)
+            op = {"op": o}
+            if "fill" in o:
+                op["v"] = r.random() < 0.5
+            ops.append(op)
+            ops.append({"op": "count_ones" if form == "vec" else "a_count_ones"})
+            if r.random() < 0.4:
+                ops.append({"op": "iter" if form == "vec" else "a_iter"})
+        if form == "vec":
+            ops += [{"op": "par_count_ones"}, {"op": "count_ones"}, {"op": "iter_ones"}, {"op": "eq_self", "mode": "garbage", "at": 0}]
+        else:
+            ops += [{"op": "a_par_count_ones"}, {"op": "a_count_ones"}, {"op": "a_iter"}]
+        eps.append({"fam": "bitvec", "src": "bulk", "ops": ops})
+    return eps
